@@ -149,7 +149,16 @@ def run(ck):
             continue
         pysmt.environment.push_env()
         tgt = pysmt.environment.get_env()
-        ev = {"id": eid, "kind": "normalize", "src": array_sorted_deep(term_io.export(f)), "res": "error",
+        conflict = False
+        if eid % 3 == 0:
+            # the target environment already knows one of the symbols - with ANOTHER sort
+            syms = sorted((s_ for s_ in f.get_free_variables() if not s_.symbol_type().is_function_type()), key=lambda s_: s_.symbol_name())
+            if syms:
+                s0 = syms[eid % len(syms)]
+                other = REAL if s0.symbol_type().is_int_type() else INT
+                tgt.formula_manager.Symbol(s0.symbol_name(), other)
+                conflict = True
+        ev = {"id": eid, "kind": "normalize", "conflict": conflict, "src": array_sorted_deep(term_io.export(f)), "res": "error",
               "copy": term_io.node("bool_constant", i=[1]), "rty": term_io.ty_none(), "shared": 0, "in_target": False, "exc": ""}
         try:
             g = tgt.formula_manager.normalize(f)
